@@ -33,6 +33,7 @@ CONSTANTS Templates,    \* sequence of node templates [path, dtype, shape, has, 
           Modes,        \* subset of {"base", "remote"}: switches offered ("local" = no switch)
           InjHosts,     \* fresh host paths for injecting definitions
           ImpHosts,     \* sequence of [host, form] for imports
+          CustomUnit,   \* BOOLEAN: the program starts with `$unit hm = 100 m`
           RefKinds,     \* subset of {"inj", "imp"}: reference lines offered
           Devs,         \* named deviations of the code that are still present (driven by the open findings):
                         \*   inject_raw      inject_value copies the raw definition text, not the current value
@@ -51,9 +52,10 @@ vars == <<prog, mode, iS, mS, iSnap, mSnap, cnt, lastT>>
 
 -----------------------------------------------------------------------------
 (* units *)
-UExp(u) == CASE u = "cm" -> -2 [] u = "km" -> 3 [] OTHER -> 0
-UDim(u) == CASE u \in {"m", "cm", "km"} -> "L" [] u = "s" -> "T" [] OTHER -> ""
-Conv(v, from, to) == [n |-> v.n, e |-> v.e + UExp(from) - UExp(to)]
+\* "[hm]" is the custom unit of the program: `$unit hm = 100 m` (a line of the text when CustomUnit is on)
+UExp(u) == CASE u = "cm" -> -2 [] u = "km" -> 3 [] u = "[hm]" -> 2 [] OTHER -> 0
+UDim(u) == CASE u \in {"m", "cm", "km", "[hm]"} -> "L" [] u = "s" -> "T" [] OTHER -> ""
+Conv(v, from, to) == IF v.n = 0 THEN [n |-> 0, e |-> 0] ELSE [n |-> v.n, e |-> v.e + UExp(from) - UExp(to)]
 Num(k) == [n |-> k, e |-> 0]
 Numeric(dt) == dt \in {"int", "float"}
 
@@ -144,7 +146,7 @@ IAssign(S, j, val, shape, u) ==
   IF n.const \/ shape # n.shape THEN Rej(S)
   ELSE IF ~Numeric(n.dtype) THEN (IF u # "" THEN Rej(S) ELSE ISet(S, j, val))
   ELSE IF u = "" \/ u = n.unit THEN ISet(S, j, val)
-  ELSE IF n.unit = "" THEN Unspec(ISet(S, j, val))                 \* a unit given to a unitless node
+  ELSE IF n.unit = "" THEN Rej(S)                                  \* a node without unit takes no value stated in one
   ELSE IF UDim(u) # UDim(n.unit) THEN Rej(S)
   ELSE IF n.shape # <<>> THEN Unspec(ISet(S, j, val))              \* conversion of whole arrays: not decided here
   ELSE LET c == Conv(val, u, n.unit) IN
@@ -234,7 +236,8 @@ MAssignRaw(S, j, rhas, raw0, rawd0, u) ==
   ELSE IF ~cut.ok THEN Rej(S1)                                      \* IndexError / dimension check after the leftover slice
   ELSE IF n.lsl = <<>> /\ ~DimOk(RawShape(n.dtype, raw, rawd), n.shape) THEN Rej(S)   \* dimension check / dtype('[..]') raises
   ELSE IF ~Numeric(n.dtype) THEN MStore(S1, j, cut.v)
-  ELSE IF n.unit = "" \/ u = "" \/ u = n.unit THEN MStore(S1, j, cut.v)  \* NumberType.convert: nothing to do
+  ELSE IF n.unit = "" /\ u # "" THEN Rej(S1)                        \* "has no units and cannot be assigned a value in"
+  ELSE IF u = "" \/ u = n.unit THEN MStore(S1, j, cut.v)            \* NumberType.convert: nothing to do
   ELSE IF n.shape # <<>> THEN Rej(S1)                               \* float(array) raises in NumberType.convert
   ELSE IF UDim(u) # UDim(n.unit) THEN Rej(S1)                       \* "Unsupported conversion between units"
   ELSE MStore(S1, j, Conv(cut.v, u, n.unit))
@@ -351,7 +354,8 @@ SeqSet(s) == {s[j] : j \in 1..Len(s)}
 MApply(S, R) == IF S.st # "ok" THEN S ELSE R
 Line(ln) == prog' = Append(prog, ln)
 
-Init == /\ prog = <<>> /\ mode = "local" /\ iS = S0 /\ mS = S0 /\ iSnap = <<>> /\ mSnap = <<>>
+UnitLine == [k |-> "unit", name |-> "hm", val |-> 100, unit |-> "m"]
+Init == /\ prog = (IF CustomUnit THEN <<UnitLine>> ELSE <<>>) /\ mode = "local" /\ iS = S0 /\ mS = S0 /\ iSnap = <<>> /\ mSnap = <<>>
         /\ cnt = [def |-> 0, mod |-> 0, ref |-> 0, late |-> 0, sw |-> 0, fresh |-> {}, srcs |-> {}] /\ lastT = 0
 
 Going == iS.st = "ok"
@@ -370,7 +374,6 @@ Modify(j, m) ==
   /\ Going /\ j \in 1..Len(iS.nodes)
   /\ LET n == iS.nodes[j]  lit == ModMenu[m] IN
      /\ lit.dtype = n.dtype /\ lit.shape = n.shape
-     /\ ~(n.unit = "" /\ lit.unit # "")                            \* a unit for a unitless node: not decided here
      /\ \/ cnt.ref = 0 /\ cnt.mod < MaxMod /\ cnt' = [cnt EXCEPT !.mod = @ + 1]
         \/ /\ cnt.ref >= 1 /\ cnt.late < MaxLate /\ n.path \in cnt.fresh \cup cnt.srcs   \* later: source or host
            /\ cnt' = [cnt EXCEPT !.late = @ + 1, !.fresh = @ \cup {n.path}]
@@ -390,7 +393,8 @@ Switch(md) ==
      /\ mSnap' = mf.nodes
      /\ mS' = IF mf.st # "ok" THEN Rej(mf)                         \* no base environment / $source fails
               ELSE IF md = "remote" THEN [mf EXCEPT !.nodes = <<>>] ELSE mf
-  /\ Line([k |-> "switch", mode |-> md])
+  \* custom units of a remote source are not visible in the importing text: it defines its own
+  /\ prog' = prog \o <<[k |-> "switch", mode |-> md]>> \o (IF CustomUnit /\ md = "remote" THEN <<UnitLine>> ELSE <<>>)
   /\ UNCHANGED lastT
 
 Srcs == IF mode = "remote" THEN {"s1", ""} ELSE {""}
@@ -446,7 +450,6 @@ Inject ==
                    LET h == iS.nodes[j]
                        ln == InjLine("mod", h.path, h.dtype, h.shape, src, qy, sl, u) IN
                    /\ h.dtype \in HostDtypes(r.dtype) /\ h.shape = shp
-                   /\ ~(h.unit = "" /\ (IF u # "" THEN u ELSE r.unit) # "")           \* a unit for a unitless node
                    /\ RefStep(IInject(iS, iSnap, mode, ln),
                               MApply(mS, IF Find(mS.nodes, h.path) = 0 THEN Rej(mS) ELSE MInject(mS, mSnap, mode, ln)), ln)
 
@@ -484,8 +487,8 @@ BaseUnchanged == (mode = "base" /\ mS.st = "ok") => ToString(Data(MBaseNow)) = T
 \* every disagreement of the transcription with the ideal is one of the named deviations
 Explained == (~Agree /\ ~IEnd.unspec) => MEnd.tags # {}
 
-Kinds == {prog[j].k : j \in 1..Len(prog)} \ {"def", "mod", "switch"}
-Complete == Len(prog) > 0 /\ prog[Len(prog)].k # "switch"
+Kinds == {prog[j].k : j \in 1..Len(prog)} \ {"def", "mod", "switch", "unit"}
+Complete == Len(prog) > 0 /\ prog[Len(prog)].k \notin {"switch", "unit"}
             /\ (cnt.ref >= 1 \/ (mode = "base" /\ prog[Len(prog)].k = "mod"))
 
 Record == [mode |-> mode, prog |-> prog,
